@@ -57,6 +57,7 @@ func vBool(s string) *V               { return &V{K: KBool, S: s, T: types.Typ[t
 // ---- engine-global tables ----
 
 type Engine struct {
+	dyn *dynTargets
 	prog      *ssa.Program
 	repoPkgs  map[string]bool // package paths that belong to the repository
 	contracts map[string]*ContractSet // by package path
@@ -236,6 +237,9 @@ type Obligation struct {
 
 type FnRun struct {
 	eng   *Engine
+	cutInit bool
+	cutMap  map[ssa.Instruction][]*Clause
+	cutDone map[ssa.Instruction]map[string]int
 	fn    *ssa.Function
 	fc    *FuncContract
 	cs    *ContractSet
@@ -324,6 +328,8 @@ type State struct {
 	allocRefs map[string]bool
 	deferStacks [][]*deferRec
 	stack []*ssa.Function
+	skipCut ssa.Instruction
+	sink    *State // assumptions made while evaluating in this (earlier) state are recorded on the path of sink
 }
 
 
@@ -393,6 +399,17 @@ func (s *State) clone() *State {
 
 func (s *State) assume(t string) {
 	if t == "true" || t == "" {
+		return
+	}
+	if s.sink != nil {
+		// forwarded well-formedness facts repeat; skip one that is already among the recent assumptions
+		n := 0
+		for p := s.sink.pc; p != nil && n < 64; p, n = p.prev, n+1 {
+			if p.term == t {
+				return
+			}
+		}
+		s.sink.assume(t)
 		return
 	}
 	n := 1
@@ -612,6 +629,11 @@ func (s *State) readAt(fam string, idx []string, t types.Type) *V {
 	case KInt:
 		v := vInt(s.readLeaf(fam, idx, "Int"), t)
 		s.assumeTypeRange(v)
+		if isRefType(t) && strings.HasPrefix(v.S, "(select ") {
+			// references stored in memory are older than anything allocated later; a component not written since
+			// entry holds only references that existed at entry
+			s.assume("(< " + v.S + " " + s.allocBound(fam) + ")")
+		}
 		return v
 	case KBool:
 		return &V{K: KBool, T: t, S: s.readLeaf(fam, idx, "Bool")}
@@ -971,3 +993,28 @@ func intLeaves(v *V) []string {
 
 // transparentExternal: library struct types whose exported fields the code under contract reads directly.
 var transparentExternal = map[string]bool{"container/list.Element": true}
+
+
+// viewFor: this (earlier) state as seen from the path of cur: reads are as in s, well-formedness facts assumed
+// while reading are added to cur's path condition.
+func (s *State) viewFor(cur *State) *State {
+	if s == cur || cur == nil {
+		return s
+	}
+	o := *s
+	o.mapAx = map[string]bool{}
+	for cur.sink != nil {
+		cur = cur.sink
+	}
+	o.sink = cur
+	return &o
+}
+
+
+// allocBound: an upper bound on the references held in component leaf.
+func (s *State) allocBound(leaf string) string {
+	if cur, ok := s.heap[leaf]; ok && strings.HasSuffix(cur, "@0|") && s.run.entryAlloc != "" {
+		return s.run.entryAlloc
+	}
+	return s.ghost["alloc"]
+}
